@@ -13,9 +13,19 @@
 (***************************************************************************)
 EXTENDS Sys, Json, IOUtils
 
-VARIABLES tid, l, phase, lastUser, corrupt
+VARIABLES tid, l, phase, lastUser, corrupt,
+          base0,   \* the synchronised base tree of the trace
+          kase,    \* declared shape of the behaviour (from the generator), [kind |-> "none"] when absent
+          nres,    \* number of resolver calls so far
+          pfault,  \* C10: kind of an injected provider fault not yet reported to the application (0 = none)
+          notif,   \* C17: <<side, object>> -> virtual time (ms) the engine was last notified of a change to it
+          cur,     \* C17: the entry being synchronised in the current sync step: [oids, neg]
+          aging,   \* C17: configured ageing interval (ms)
+          walked   \* C06: a restart without a usable cursor happened (full walk: deletions are not promised)
 tvars == <<tr, written, killed, dropped, merged, expect, exOK, chg, anc, origin, win, tags,
-           tid, l, phase, lastUser, corrupt>>
+           tid, l, phase, lastUser, corrupt, base0, kase, nres, pfault, notif, cur, aging, walked>>
+Aux == <<base0, kase, nres, pfault, notif, cur, aging, walked>>
+Sched == <<notif, cur, aging, walked>>
 
 Traces == JsonDeserialize(IOEnv.TRACE_FILE)
 Tr == Traces[tid]
@@ -43,6 +53,8 @@ TraceInit ==
   /\ chg = <<{}, {}>> /\ anc = <<{}, {}>> /\ origin = 0
   /\ win = EmptyWin /\ tags = {}
   /\ phase = "run" /\ lastUser = <<EmptyTree, EmptyTree>> /\ corrupt = {}
+  /\ base0 = EmptyTree /\ kase = [kind |-> "none"] /\ nres = 0 /\ pfault = 0
+  /\ notif = <<>> /\ cur = [oids |-> <<0, 0>>, neg |-> 0] /\ aging = 0 /\ walked = FALSE
 
 \* ---- the synchronised starting point ----------------------------------------------------------
 TBase ==
@@ -50,7 +62,9 @@ TBase ==
   /\ LET o == Obs(Ev.post) IN
        /\ tr' = o /\ lastUser' = o /\ expect' = o[1]
        /\ written' = (Cells(o[1]) \cup Cells(o[2])) \ {DIR}
-  /\ UNCHANGED <<killed, dropped, merged, exOK, chg, anc, origin, win, tags, phase, corrupt>>
+       /\ base0' = o[1]
+  /\ aging' = Ev.aging_ms
+  /\ UNCHANGED <<killed, dropped, merged, exOK, chg, anc, origin, win, tags, phase, corrupt, kase, nres, pfault, notif, cur, walked>>
   /\ Advance
 
 \* ---- a user operation (environment) ---------------------------------------------------------------
@@ -69,14 +83,23 @@ TUser ==
                   /\ TagEffect(s, op, FALSE, chg, anc)
         /\ tr' = o
         /\ lastUser' = [lastUser EXCEPT ![s] = o[s]]
-  /\ UNCHANGED <<dropped, merged, phase, corrupt>>
+  /\ UNCHANGED <<dropped, merged, phase, corrupt>> /\ UNCHANGED Aux
   /\ Advance
 
 \* ---- an engine-issued provider call: the contract guards are checked here ---------------------------
+\* C17: nothing is propagated earlier than the ageing interval after the engine was last notified of a change to that
+\* object (on either side), unless its priority is negative
+NotifAt(s, o) == IF <<s, o>> \in DOMAIN notif THEN notif[<<s, o>>] ELSE 0
+LastNotified == LET a == NotifAt(1, cur.oids[1])
+                    b == NotifAt(2, cur.oids[2])
+                IN IF a >= b THEN a ELSE b
+Declined(p) == kase.kind = "c12" /\ Len(kase.declined) > 0 /\ IsPrefix(kase.declined, p)
 ECallChecks(s) ==
   LET p == Ev.path
       c == Ev.cid
   IN /\ Check(phase # "after", "NoEcho")
+     /\ Check(cur.neg = 1 \/ Ev.now - LastNotified >= aging, "Aged")
+     /\ Check(~Declined(p) /\ ~(Ev.op = "rename" /\ Declined(Ev.src)), "DeclinedLeftAlone")
      /\ CASE Ev.op = "create" ->
                /\ Check(InsideOK(p), "InsideRoot")
                /\ Check(ContentOK(c), "NoInventedContent")
@@ -116,60 +139,115 @@ TECall ==
               /\ Conform(ECallApplicable(s), "ECallApplicability")
               /\ tr' = [tr EXCEPT ![s] = ECallEffect(s)]
          ELSE tr' = tr
-  /\ LedgerFrame /\ UNCHANGED <<phase, lastUser, corrupt>>
+  /\ LedgerFrame /\ UNCHANGED <<phase, lastUser, corrupt>> /\ UNCHANGED Aux
   /\ Advance
 
 \* ---- step boundaries ------------------------------------------------------------------------------------
 \* C03: while only one side has ever been changed by users, the engine makes no effective change there
-OriginClause(o) == IF origin \in {1, 2} THEN o[origin] = lastUser[origin]
+OriginClause(o) == IF origin \in {1, 2} THEN InsideOf(o[origin]) = InsideOf(lastUser[origin])
                    ELSE IF origin = 0 THEN o = lastUser ELSE TRUE
+\* C10: temporary / disconnected / out-of-space conditions raised by a provider are reported to the application by a
+\* notification of the matching kind before the service step that met them ends
+R_TEMP == 4   R_DISC == 5   R_TOKEN == 6   R_SPACE == 7
+NoteFor(kind) == CASE kind = R_TEMP -> "temporary_error" [] kind = R_DISC -> "disconnected_error"
+                   [] kind = R_SPACE -> "out_of_space_error" [] OTHER -> "?"
+TFault ==
+  /\ Ev.ev = "Fault"
+  /\ pfault' = IF Ev.kind \in {R_TEMP, R_DISC, R_SPACE} THEN Ev.kind ELSE 0
+  /\ UNCHANGED <<tr, phase, lastUser, corrupt, base0, kase, nres>> /\ LedgerFrame /\ UNCHANGED Sched
+  /\ Advance
+TNotify ==
+  /\ Ev.ev = "Notify"
+  /\ pfault' = IF pfault # 0 /\ Ev.ntype = NoteFor(pfault) THEN 0 ELSE pfault
+  /\ UNCHANGED <<tr, phase, lastUser, corrupt, base0, kase, nres>> /\ LedgerFrame /\ UNCHANGED Sched
+  /\ Advance
 TStepEnd ==
   /\ Ev.ev = "StepEnd"
+  /\ Check(pfault = 0, "FaultNotified")
   /\ IF "post" \in DOMAIN Ev
        THEN LET o == Obs(Ev.post) IN
               /\ Conform(tr = o, "StepEffect")
               /\ Check(OriginClause(o), "OriginUntouched")
+              /\ Check(OutsideUntouched(o, lastUser), "OutsideUntouched")
               /\ tr' = o
        ELSE tr' = tr
-  /\ LedgerFrame /\ UNCHANGED <<phase, lastUser, corrupt>>
+  /\ pfault' = 0
+  /\ LedgerFrame /\ UNCHANGED <<phase, lastUser, corrupt, base0, kase, nres>> /\ UNCHANGED Sched
   /\ Advance
 
+\* ---- C05: the resolver contract, evaluated at quiet for behaviours that declare a single conflict ------------
+\* kase = [kind "c05", path P, cidL, cidR, answer, pick, keep]; the only user operations are the two conflicting ones
+ConfCells(o) == UNION {{<<s, p>> : p \in ConflictedPaths(o[s])} : s \in Sides}
+C05Outcome(o) ==
+  LET P    == kase.path
+      diff == kase.cidL # kase.cidR
+      mg   == IF merged = {} THEN 0 ELSE CHOOSE m \in merged : TRUE
+      W    == IF ~diff THEN kase.cidL
+              ELSE CASE kase.answer = "pick"  -> IF kase.pick = 0 THEN kase.cidL ELSE kase.cidR
+                     [] kase.answer = "merge" -> mg
+                     [] OTHER -> kase.cidR                      \* nothing / exception / garbage: remote wins
+      Lo   == IF W = kase.cidL THEN kase.cidR ELSE kase.cidL
+      keepLoser == diff /\ (IF kase.answer = "pick" THEN kase.keep = 1 ELSE kase.answer # "merge")
+      want == Put(base0, P, W)
+      cf   == ConfCells(o)
+  IN /\ Check(nres = (IF diff THEN 1 ELSE 0), "ResolverCalledOnceIffDifferent")
+     /\ IF diff /\ kase.answer = "merge" /\ kase.keep = 1 THEN TRUE      \* outcome not specified by the property
+        ELSE /\ Check(StripConflicted(o[1]) = want /\ StripConflicted(o[2]) = want, "ResolverOutcome")
+             /\ Check(IF keepLoser
+                        THEN /\ cf # {}
+                             /\ \A sp \in cf : o[sp[1]][sp[2]] = Lo /\ Parent(sp[2]) = Parent(P)
+                             /\ Cardinality({sp[2] : sp \in cf}) = 1
+                        ELSE cf = {}, "ResolverKeepsLoserIffKeep")
+CaseAtQuiet(o) == IF kase.kind = "c05" THEN C05Outcome(o) ELSE TRUE
+
 \* ---- the engine reports nothing left to do ------------------------------------------------------------------
+\* paths a custom translate function declines are not expected to be mirrored
+Visible(t) == IF kase.kind = "c12" /\ Len(kase.declined) > 0 THEN Drop(t, Under(t, kase.declined)) ELSE t
 TQuiet ==
   /\ Ev.ev = "Quiet"
   /\ LET o == Obs(Ev.post) IN
-       /\ Check(Converged(o), "Converged")
+       /\ Check(Converged(<<Visible(o[1]), Visible(o[2])>>), "Converged")
+       /\ Check(OutsideUntouched(o, lastUser), "OutsideUntouched")
        /\ Check(NoLoss(o, corrupt), "NoLoss")
        /\ Check(NoInvented(o), "NoInventedContent")
-       /\ IF exOK THEN Check(AsExpected(o), "AsExpected") /\ Check(NoArtefacts(o), "NoArtefacts") ELSE TRUE
+       /\ IF exOK
+            THEN /\ Check(IF walked THEN CoversExpected(o) ELSE AsExpected(o), "AsExpected")
+                 /\ Check(NoArtefacts(o), "NoArtefacts")
+            ELSE TRUE
        /\ tr' = o
        /\ IF o[1] = o[2] THEN WindowReset ELSE UNCHANGED <<chg, anc, win>>
-  /\ UNCHANGED <<written, killed, dropped, merged, expect, exOK, origin, tags, phase, lastUser, corrupt>>
+       /\ CaseAtQuiet(o)
+  /\ UNCHANGED <<written, killed, dropped, merged, expect, exOK, origin, tags, phase, lastUser, corrupt>> /\ UNCHANGED Aux
   /\ Advance
 TNoQuiet ==
   /\ Ev.ev = "NoQuiet"
   /\ Check(FALSE, "ReachesQuiet")
   /\ tr' = Obs(Ev.post)
-  /\ LedgerFrame /\ UNCHANGED <<phase, lastUser, corrupt>>
+  /\ LedgerFrame /\ UNCHANGED <<phase, lastUser, corrupt>> /\ UNCHANGED Aux
   /\ Advance
 TEscape ==
   /\ Ev.ev = "Escape"
   /\ Check(FALSE, "NoEscape")
-  /\ UNCHANGED <<tr, phase, lastUser, corrupt>> /\ LedgerFrame
+  /\ UNCHANGED <<tr, phase, lastUser, corrupt>> /\ LedgerFrame /\ UNCHANGED Aux
   /\ Advance
 TAfter ==
   /\ Ev.ev \in {"AfterQuiet", "AfterQuietEnd"}
   /\ IF Ev.ev = "AfterQuietEnd"
        THEN /\ Check(Ev.busy = 0, "StaysQuiet")
-            /\ Check(Converged(Obs(Ev.post)), "Converged")
+            /\ Check(Converged(<<Visible(Obs(Ev.post)[1]), Visible(Obs(Ev.post)[2])>>), "Converged")
             /\ phase' = "run" /\ tr' = Obs(Ev.post)
        ELSE phase' = "after" /\ tr' = tr
-  /\ LedgerFrame /\ UNCHANGED <<lastUser, corrupt>>
+  /\ LedgerFrame /\ UNCHANGED <<lastUser, corrupt>> /\ UNCHANGED Aux
   /\ Advance
 
 \* ---- resolver call: what the application's answer allows the engine to discard / write -------------------------
+HandleTruthful(hd) ==
+  LET s == hd.side + 1 IN s \in Sides /\ Has(tr[s], hd.path) /\ tr[s][hd.path] = hd.cid
 TResolve ==
   /\ Ev.ev = "Resolve"
+  /\ Check(Ev.h1.cid # Ev.h2.cid, "ResolverOnlyOnDifferentContent")
+  /\ Check(Ev.h1.side # Ev.h2.side /\ HandleTruthful(Ev.h1) /\ HandleTruthful(Ev.h2), "ResolverHandlesTruthful")
+  /\ nres' = nres + 1 /\ UNCHANGED <<base0, kase, pfault>> /\ UNCHANGED Sched
   /\ merged' = IF Ev.merged # 0 THEN merged \cup {Ev.merged} ELSE merged
   /\ dropped' = dropped \cup
         (IF Ev.keep = 1 THEN {}
@@ -179,26 +257,52 @@ TResolve ==
   /\ UNCHANGED <<tr, written, killed, expect, exOK, chg, anc, origin, win, tags, phase, lastUser, corrupt>>
   /\ Advance
 
+\* ---- declared shape of the behaviour (C05 resolver families) -------------------------------------------
+TCase ==
+  /\ Ev.ev = "Case"
+  /\ kase' = Ev
+  /\ UNCHANGED <<tr, phase, lastUser, corrupt, base0, nres, pfault>> /\ LedgerFrame /\ UNCHANGED Sched
+  /\ Advance
+
 TCorrupt ==
   /\ Ev.ev = "Corrupt"
   /\ LET s == Ev.side + 1 IN
        corrupt' = IF Has(tr[s], Ev.path) /\ tr[s][Ev.path] # DIR
                   THEN corrupt \cup {<<s, Ev.path, tr[s][Ev.path]>>} ELSE corrupt
-  /\ UNCHANGED <<tr, phase, lastUser>> /\ LedgerFrame
+  /\ UNCHANGED <<tr, phase, lastUser>> /\ LedgerFrame /\ UNCHANGED Aux
+  /\ Advance
+
+TIntake ==
+  /\ Ev.ev = "Intake"
+  /\ LET k == <<Ev.side + 1, Ev.oid>> IN
+       notif' = [x \in DOMAIN notif \cup {k} |-> IF x = k THEN Ev.now ELSE notif[x]]
+  /\ UNCHANGED <<tr, phase, lastUser, corrupt, base0, kase, nres, pfault, cur, aging, walked>> /\ LedgerFrame
+  /\ Advance
+TSyncEntry ==
+  /\ Ev.ev = "SyncEntry"
+  /\ cur' = [oids |-> Ev.oids, neg |-> Ev.neg]
+  /\ UNCHANGED <<tr, phase, lastUser, corrupt, base0, kase, nres, pfault, notif, aging, walked>> /\ LedgerFrame
+  /\ Advance
+\* C06: a new engine is started over the same storage and accounts
+TRestart ==
+  /\ Ev.ev = "Restart"
+  /\ walked' = (walked \/ Ev.variant # "intact")
+  /\ tr' = Obs(Ev.post)
+  /\ UNCHANGED <<phase, lastUser, corrupt, base0, kase, nres, pfault, notif, cur, aging>> /\ LedgerFrame
   /\ Advance
 
 \* events that carry no obligation for this module (other modules extend the disjunction)
-Skippable == {"StepBegin", "Notify", "Fault", "CorruptRead", "Stop", "Restart", "Crash", "Intake", "Note"}
+Skippable == {"StepBegin", "CorruptRead", "Stop", "Crash", "Note"}
 TSkip ==
   /\ Ev.ev \in Skippable
   /\ tr' = IF "post" \in DOMAIN Ev THEN Obs(Ev.post) ELSE tr
-  /\ UNCHANGED <<phase, lastUser, corrupt>> /\ LedgerFrame
+  /\ UNCHANGED <<phase, lastUser, corrupt>> /\ LedgerFrame /\ UNCHANGED Aux
   /\ Advance
 
 TraceNext ==
   /\ l <= Len(Tr)
   /\ \/ TBase \/ TUser \/ TECall \/ TStepEnd \/ TQuiet \/ TNoQuiet \/ TEscape \/ TAfter \/ TResolve
-     \/ TCorrupt \/ TSkip
+     \/ TCorrupt \/ TSkip \/ TCase \/ TFault \/ TNotify \/ TIntake \/ TSyncEntry \/ TRestart
 TraceSpec == TraceInit /\ [][TraceNext]_tvars
 
 ASSUME TLCSet(1, {}) /\ TLCSet(2, 0) /\ TLCSet(3, {})
